@@ -20,6 +20,8 @@ SPEC = {
 def bounds(tier):
     q = tier == "quick"
     return {"flag_deviations": 1 if q else 2, "full_cross_product": "none" if q else "shapes with <= 3 arcs (DAG) / <= 4 arcs (cyclic)",
+            "constraint_sweep": ("every flow from <= 3 routes (weights <= 2) of every DAG shape with 3..%d arcs x every contiguous 2-/3-arc constraint x 3 length patterns x coverage_length 0.5, "
+                                 "constraint-related flags only" % (4 if q else 5)) + ("" if q else "; the same on the 3 larger named DAGs (caterpillar, double diamond, ladder)"),
             "instances": "W-DAG(n<=4) x 2 flows; cyclic W-DIG(n<=4, arcs<=5)+named x 2 flows" if q else "W-DAG(n<=5, arcs<=6) x 2; cyclic W-DIG(n<=4, arcs<=6)+W-NAMED x 2"}
 
 
@@ -29,6 +31,19 @@ def cases(tier, seed):
         for cls in sweep.DAG_CLASSES:
             lvl = 1 if q else (3 if len(inst["arcs"]) <= 3 else 2)
             yield dict(inst, cls=cls, level=lvl)
+    if not q:
+        # thorough only: the larger named DAGs with every flow built from <= 3 routes (weights <= 2) and an exhaustive single-constraint sweep
+        for inst in sweep.named_dag_instances(tier, seed, per_shape=10 ** 6, max_w=2):
+            for cls in ("kMinPathError", "kLeastAbsErrors", "MinFlowDecomp", "kPathCover"):
+                yield dict(inst, cls=cls, level=1)
+    # every flow (<= 3 routes, weights <= 2) of every small DAG shape x every contiguous constraint under length coverage 0.5
+    for inst in sweep.dag_all_flow_instances(tier, seed, 4 if q else 5):
+        for cls in ("kFlowDecomp", "kMinPathError", "MinFlowDecomp"):
+            yield dict(inst, cls=cls, level=1)
+    # the caterpillar: constraints on the inner spine, the lengths of the 5 spine arcs swept over {1,4}^5
+    for inst in sweep.spine_instances(tier, seed):
+        for cls in ("kFlowDecomp", "kMinPathError", "kLeastAbsErrors", "MinFlowDecomp"):
+            yield dict(inst, cls=cls, level=1)
     for inst in sweep.cyc_instances(tier, seed):
         for cls in sweep.CYC_CLASSES:
             lvl = 1 if q else (3 if len(inst["arcs"]) <= 4 else 2)
@@ -86,9 +101,58 @@ def run(case):
     if con:
         nm, ii, kw0 = inputs[-1] if not is_k else inputs[1 if len(inputs) > 1 else 0]
         inputs.append((nm + ",constraint", ii, dict(kw0, **{ckey: [con]})))
+        cc = "subset_constraints_coverage" if cyc else "subpath_constraints_coverage"
+        inputs.append((nm + ",constraint,coverage=0.5", ii, dict(kw0, **{ckey: [con], cc: 0.5})))
+        if not cyc:
+            lengths = {f"{a[0]}|{a[1]}": 1 + 2 * (i % 2) for i, a in enumerate(ii["arcs"])}
+            # a long constraint (3 arcs if one exists) under length coverage < 1
+            g_ = sweep.O.STGraph(ii["nodes"], E)
+            long_c = None
+            for p_ in g_.simple_paths():
+                pa_ = sweep.O.path_arcs(p_)
+                if len(pa_) >= 3:
+                    long_c = [list(x) for x in pa_[:3]]
+                    break
+            for c_ in ([con] + ([long_c] if long_c else [])):
+                for cl_ in (0.5, 0.34):
+                    inputs.append((nm + f",constraint{len(c_)},coverage_length={cl_}", dict(ii, lengths=lengths),
+                                   dict(kw0, **{ckey: [c_], "subpath_constraints_coverage_length": cl_, "length_attr": "length"})))
     if len(E) > 1 and sweep.width_of(inst, ignored=[E[0]]):
         nm, ii, kw0 = inputs[0] if not is_k else inputs[min(1, len(inputs) - 1)]
         inputs.append((nm + ",ignore", ii, dict(kw0, elements_to_ignore=[list(E[0])])))
+
+    if case.get("spine"):
+        import itertools
+        sp = case["spine"]
+        nm, ii, kw0 = inputs[1] if (is_k and len(inputs) > 1) else inputs[0]
+        if "LeastAbsErrors" in cls:
+            kw0 = dict(kw0, k=3)
+        inputs = []
+        for pat in itertools.product((1, 4), repeat=5):
+            lengths = {f"{a[0]}|{a[1]}": 1 for a in inst["arcs"]}
+            for e, l_ in zip(sp, pat):
+                lengths[f"{e[0]}|{e[1]}"] = l_
+            for c_ in (sp[1:4], sp[1:3]):
+                inputs.append((nm + f",spine_lengths={pat},constraint={len(c_)} arcs,coverage_length=0.5", dict(ii, lengths=lengths),
+                               dict(kw0, **{ckey: [c_], "subpath_constraints_coverage_length": 0.5, "length_attr": "length"})))
+    elif case.get("named") and not cyc:
+        # exhaustive constraint sweep on the larger named DAGs: every contiguous sub-path (>= 2 arcs) as the single constraint,
+        # length coverage 0.5, three length patterns (constraints whose pieces lie on different solution paths live here)
+        g_ = sweep.O.STGraph(inst["nodes"], E)
+        subs = []
+        for p_ in g_.simple_paths():
+            pa_ = sweep.O.path_arcs(p_)
+            for L_ in (2, 3):
+                for i_ in range(len(pa_) - L_ + 1):
+                    c_ = [list(x) for x in pa_[i_:i_ + L_]]
+                    if c_ not in subs:
+                        subs.append(c_)
+        nm, ii, kw0 = inputs[1] if (is_k and len(inputs) > 1) else inputs[0]
+        for li, lfun in enumerate((lambda i: 1, lambda i: 1 + 2 * (i % 2), lambda i: 1 + (i * 3) % 7)):
+            lengths = {f"{a[0]}|{a[1]}": lfun(i) for i, a in enumerate(inst["arcs"])}
+            for c_ in subs:
+                inputs.append((nm + f",L{li},constraint={c_},coverage_length=0.5", dict(ii, lengths=lengths),
+                               dict(kw0, **{ckey: [c_], "subpath_constraints_coverage_length": 0.5, "length_attr": "length"})))
 
     assignments = sweep.flag_sets(cls, case["level"])
     extra = []
@@ -102,6 +166,12 @@ def run(case):
                  ("guessed+free", {"optimize_with_guessed_weights": True, "optimize_with_given_weights_num_free_walks": 1}),
                  ("guessed+mgs+add", {"optimize_with_guessed_weights": True, "use_min_gen_set_lowerbound": True, "add_min_gen_set_to_given_weights": True}),
                  ("lowerbound_k=1", {"lowerbound_k": 1})]
+    if case.get("allflows"):
+        inputs = [i_ for i_ in inputs if "coverage_length" in i_[0]]
+    if case.get("named"):
+        keep = [a for a in assignments if a[0] in ("default", "all_off") or "safety_as" in a[0] or "subpath_constraints_as_safe" in a[0]]
+        assignments = keep
+        extra = []
     all_off = assignments[1][1]
     for iname, ii, kw0 in inputs:
         ref_obs = drivers.observe(dict(ii, cls=cls, kw=dict(kw0, optimization_options=dict(all_off))))
